@@ -13,7 +13,7 @@ Proof. replace (IZR n / IZR 1) with (IZR n) by field. apply Ztrunc_IZR. Qed.
 
 Lemma gen_getitem_eq g key : gen_area_getitem RO g key = area_getitem RO g key.
 Proof.
-  destruct key as [ys xs]. unfold gen_area_getitem, area_getitem, slice3, slice_extent, half, gpul.
+  destruct key as [ys xs]. unfold gen_area_getitem, area_getitem, slice3, slice_extent, slice_extent_centre, half, gpul, garea_extent, area_extent.
   cbn -[indices IZR Ztrunc Z.modulo Rdiv].
   rewrite !trunc_div1, !Z.mod_1_r, !Z.sub_0_r.
   reflexivity.
@@ -44,16 +44,22 @@ Lemma tuple4_eq {A} (a b c d a' b' c' d' : A) : a = a' -> b = b' -> c = c' -> d 
 Proof. intros; subst; reflexivity. Qed.
 
 (* ---- the extent of a slice in canonical form: corners move by whole pixels *)
-Lemma slice_extent_canonical g yi xi :
+Lemma slice_extent_canonical g yi xi : wf_g g ->
   slice_extent RO g yi xi =
   (xmin (g_area g) + IZR (sstart xi) * dxR (g_area g),
    ymax (g_area g) - IZR (sstop yi) * dyR (g_area g),
    xmin (g_area g) + IZR (sstop xi) * dxR (g_area g),
    ymax (g_area g) - IZR (sstart yi) * dyR (g_area g)).
 Proof.
-  unfold slice_extent, half, gpsx, gpsy, upl_x, upl_y. rewrite psx_eq, psy_eq. cbn.
-  set (dx := dxR (g_area g)). set (dy := dyR (g_area g)).
-  apply tuple4_eq; field.
+  intros [Hw Hh]. unfold slice_extent, slice_extent_centre, half, gpsx, gpsy, upl_x, upl_y. rewrite psx_eq, psy_eq. cbn.
+  unfold gwidth, gheight, dxR, dyR in *.
+  assert (IZR (width (g_area g)) <> 0) by (apply IZR_pos_of in Hw; lra).
+  assert (IZR (height (g_area g)) <> 0) by (apply IZR_pos_of in Hh; lra).
+  apply tuple4_eq.
+  - destruct (Z.eqb_spec (sstart xi) 0) as [->|_]; field; assumption.
+  - destruct (Z.eqb_spec (sstop yi) (height (g_area g))) as [->|_]; field; assumption.
+  - destruct (Z.eqb_spec (sstop xi) (width (g_area g))) as [->|_]; field; assumption.
+  - destruct (Z.eqb_spec (sstart yi) 0) as [->|_]; field; assumption.
 Qed.
 
 (* the sliced area (extent + shape) *)
@@ -64,10 +70,10 @@ Definition sl_area (g : garea R) (yi xi : pslice) : area R :=
           (ymax (g_area g) - IZR (sstart yi) * dyR (g_area g))
           (sstop xi - sstart xi) (sstop yi - sstart yi).
 
-Lemma getitem_area g ys xs :
+Lemma getitem_area g ys xs : wf_g g ->
   g_area (area_getitem RO g (ys, xs)) = sl_area g (indices ys (gheight g)) (indices xs (gwidth g)).
 Proof.
-  unfold area_getitem. cbn [set_crop_offset g_area]. rewrite slice_extent_canonical. reflexivity.
+  intros W. unfold area_getitem. cbn [set_crop_offset g_area]. rewrite slice_extent_canonical by exact W. reflexivity.
 Qed.
 Lemma getitem_meta g key :
   g_id (area_getitem RO g key) = g_id g /\ g_desc (area_getitem RO g key) = g_desc g /\
@@ -167,7 +173,7 @@ Lemma getitem_vectors g key : wf_g g -> sel_ok g key ->
 Proof.
   intros [Hw Hh] [Sy Sx]. destruct key as [ys xs]; cbn [fst snd] in *.
   unfold np_slice. rewrite zlen_gvec_x, zlen_gvec_y by lia.
-  unfold gvec_x at 1, gvec_y at 1. rewrite getitem_area. split.
+  unfold gvec_x at 1, gvec_y at 1. rewrite getitem_area by (split; assumption). split.
   - apply vec_x_slice. apply win_of_indices; lia.
   - apply vec_y_slice. apply win_of_indices; lia.
 Qed.
@@ -185,7 +191,7 @@ Lemma getitem_shape g key : wf_g g -> sel_ok g key ->
   gwidth (area_getitem RO g key) = slen (indices (snd key) (gwidth g)).
 Proof.
   intros [Hw Hh] [Sy Sx]. destruct key as [ys xs]; cbn [fst snd] in *.
-  unfold gheight at 1, gwidth at 1. rewrite getitem_area. cbn [sl_area height width].
+  unfold gheight at 1, gwidth at 1. rewrite getitem_area by (split; assumption). cbn [sl_area height width].
   pose proof (win_of_indices ys (gheight g) ltac:(lia) Sy) as Wy.
   pose proof (win_of_indices xs (gwidth g) ltac:(lia) Sx) as Wx.
   rewrite (win_slen _ _ Wy), (win_slen _ _ Wx). split; reflexivity.
@@ -226,9 +232,10 @@ Proof.
   assert (Wsx : within (shift (sstart xi) sx) (gwidth g)).
   { unfold within, shift, win, slen in *; cbn [sstart sstop]. lia. }
   apply garea_eq.
-  - rewrite !getitem_area. rewrite Eh, Ew. rewrite !indices_okey by assumption.
+  - rewrite (getitem_area (area_getitem RO g (ys, xs))) by (apply getitem_wf; [exact W|split; assumption]).
+    rewrite (getitem_area g) by exact W. rewrite Eh, Ew. rewrite !indices_okey by assumption.
     apply sl_area_sl_area; [unfold win in Wiy; lia|unfold win in Wix; lia|].
-    apply getitem_area.
+    apply getitem_area. exact W.
   - rewrite !getitem_off. rewrite Eh, Ew. rewrite !indices_okey by assumption.
     cbn [fst snd shift sstart]. fold yi xi. f_equal; lia.
   - destruct (getitem_meta (area_getitem RO g (ys, xs)) (okey sy, okey sx)) as (-> & _).
@@ -253,7 +260,7 @@ Proof.
   assert (W1 : within (mk_slice 0 (gheight g)) (gheight g)) by (unfold within; cbn; lia).
   assert (W2 : within (mk_slice 0 (gwidth g)) (gwidth g)) by (unfold within; cbn; lia).
   apply garea_eq; try (destruct g; reflexivity).
-  - rewrite getitem_area, !indices_okey by assumption. unfold sl_area; cbn [sstart sstop].
+  - rewrite getitem_area by (split; assumption). rewrite !indices_okey by assumption. unfold sl_area; cbn [sstart sstop].
     destruct g as [[x0 y0 x1 y1 w h] off i d p c]; unfold gwidth, gheight, dxR, dyR in *; cbn in *.
     assert (IZR w <> 0) by (apply IZR_pos_of in Hw; lra).
     assert (IZR h <> 0) by (apply IZR_pos_of in Hh; lra).
